@@ -70,6 +70,21 @@ K05 = [
         "dstpkg/__init__.py": "",
         "main.py": "from srcpkg import gadget as {2}\nfrom srcpkg import sibling as {3}, gadget\nimport srcpkg.gadget\nprint({2}.spin(2), {3}.val, gadget.{0}, srcpkg.gadget.spin(1))\n"}),
      lambda files: dict(api="move_module", path="srcpkg/gadget.py", dest="dstpkg")),
+    # a client inside a package imports a sibling module relatively whose bare name equals the (top-level)
+    # destination module: the import rope adds for the moved name must not be folded into the relative one;
+    # the source keeps two relative from-imports of different levels with the same (empty) module name
+    (Skeleton("v11_move_function_client_with_relative_sibling", {
+        "util.py": "{1} = 5\n",
+        "shared.py": "base = 100\n",
+        "pkg/__init__.py": "",
+        "pkg/util.py": "def helper():\n    return 1\n",
+        "pkg/local.py": "inc = 1\n",
+        "pkg/sub/__init__.py": "",
+        "pkg/sub/src.py": "from . import near\nfrom .. import local\ndef mover({0}):\n    return {0} + local.inc + near.tiny\ndef stays():\n    return local.inc + near.tiny\n",
+        "pkg/sub/near.py": "tiny = 10\n",
+        "pkg/client.py": "from .util import helper\nfrom .sub.src import mover\ndef use():\n    return mover(helper())\n",
+        "main.py": "from pkg import client\nimport util\nfrom pkg.sub import src\nprint(client.use(), util.{1}, src.stays())\n"}),
+     lambda files: dict(api="move_global", path="pkg/sub/src.py", offset=files["pkg/sub/src.py"].index("mover"), dest="util.py")),
     # v02 without code left behind that uses the class: no import cycle (KF-C05-source-and-destination-import-each-other
     # makes every partition of v02 fail, so v02 alone cannot tell a second defect about moved classes)
     (Skeleton("v10_move_class_nothing_left_behind_uses_it", {
